@@ -42,7 +42,43 @@ def _dictnull(entry):
     return "no value and no default" in entry["what"]
 
 
+def _promo_first(entry):
+    """KF07: the reader union has a branch reachable by promotion *before* the branch of the
+    writer's own type, and the value obtained is the one the earlier branch gives"""
+    c = entry["case"]
+    if "_w" not in c:
+        return False
+    from spec import resolve as RS
+    from bounded.c08 import same_unordered
+
+    def first_match_resolve(ws, rs, nsw, nsr, buf, pos):
+        """the resolution fastavro implements: first reader branch that matches at all"""
+        orig = RS.pick_branch
+
+        def pick(w, ru, a, b):
+            for br in ru:
+                if RS.same_type(w, br, a, b) or RS.promotable(w, br, a, b):
+                    return br
+            raise RS.ResolutionError("none")
+        RS.pick_branch = pick
+        try:
+            return RS.resolve_decode(ws, rs, nsw, nsr, buf, pos)[0]
+        finally:
+            RS.pick_branch = orig
+    try:
+        alt = first_match_resolve(c["_w"], c["_r"], c["_nsw"], c["_nsr"], c["_enc"], 0)
+    except UnicodeDecodeError:
+        return "UnicodeDecodeError" in entry["what"]
+    except Exception:
+        return False
+    return "_got" in c and same_unordered(c["_got"], alt)
+
+
 BOUNDED = [
+    dict(id="KF07", property="C08", clause="resolution",
+         what=("a reader union is resolved to the first branch that matches at all (promotions included), not to the "
+               "branch of the writer's own type first: writer int against reader [\"double\", \"int\"] yields 5.0"),
+         match=_promo_first),
     dict(id="KF13", property="C01", clause="roundtrip", what=DEDUCTIVE[0]["what"], match=_dictnull),
     dict(id="KF13", property="C02", clause="bytes_equal_spec", what=DEDUCTIVE[0]["what"], match=_dictnull),
     dict(id="KF13", property="C04", clause="file_roundtrip", what=DEDUCTIVE[0]["what"], match=_dictnull),
@@ -57,6 +93,8 @@ FIXED = [
     "also violates C15 (absent fields take their defaults) and C18",
     "fixed: property=C07 056bc62 a record rejected part-way by Writer.write left its first fields in the block buffer "
     "(history [write ok, write {'a': 7, 's': 3} fails, write ok, flush]: next record read back shifted / file undecodable)",
+    "fixed: property=C08 e965be2 writer defines an enum/fixed/record inline where the reader schema refers to it by name "
+    "(reader defined it in an earlier field): SchemaResolutionError instead of the resolved value",
     "fixed: property=C18 6c01e0c read_decimal set the precision on a module-level decimal Context and then used it "
     "(schedule: A sets prec=9, B reads a precision-2 decimal, A resumes and returns 1.2E+6 for 1234567.89)",
 ]
